@@ -133,6 +133,17 @@ class VTime(types.SimpleNamespace):
                          gmtime=_time.gmtime)
 
 
+class _RsShim:
+    """``mitmproxy_rs`` as seen by mitmproxy.proxy.server: everything real except udp.open_udp_connection"""
+
+    def __init__(self, real, open_udp_connection):
+        self._real = real
+        self.udp = types.SimpleNamespace(open_udp_connection=open_udp_connection)
+
+    def __getattr__(self, name):
+        return getattr(self._real, name)
+
+
 class _AsyncioShim:
     """``asyncio`` as seen by mitmproxy.proxy.server: everything real except open_connection"""
 
@@ -150,18 +161,22 @@ def patched(loop, net=None, modules=("mitmproxy.proxy.server",)):
     try:
         for name in modules:
             m = importlib.import_module(name)
-            saved.append((m, getattr(m, "time", None), getattr(m, "asyncio", None)))
+            saved.append((m, getattr(m, "time", None), getattr(m, "asyncio", None), getattr(m, "mitmproxy_rs", None)))
             if hasattr(m, "time"):
                 m.time = VTime(loop)
             if net is not None and hasattr(m, "asyncio"):
                 m.asyncio = _AsyncioShim(net.open_connection)
+            if net is not None and hasattr(m, "mitmproxy_rs"):
+                m.mitmproxy_rs = _RsShim(m.mitmproxy_rs, net.open_udp_connection)
         yield
     finally:
-        for m, t, a in saved:
+        for m, t, a, rs in saved:
             if t is not None:
                 m.time = t
             if a is not None:
                 m.asyncio = a
+            if rs is not None:
+                m.mitmproxy_rs = rs
 
 
 # ---------------------------------------------------------------------------------------------- fake streams
@@ -260,6 +275,7 @@ class FakeWriter:
         self.close_calls = 0
         self.opened_at = net.loop.time()
         self.closed_at = None
+        self.extra = {}
 
     def write(self, data):
         if self.closed:
@@ -301,7 +317,7 @@ class FakeWriter:
             return self.peername
         if name == "sockname":
             return self.sockname
-        return default
+        return self.extra.get(name, default)
 
     async def drain(self):
         kind = self.net.point("drain:" + self.label)
@@ -321,6 +337,20 @@ class FakeWriter:
         self.net.after_point(kind)
         if outcome == "err" or self.closed:
             raise ConnectionResetError(104, "sim: connection lost")
+
+
+class FakeDuplex:
+    """one object that is reader and writer, like mitmproxy_rs.Stream (UDP)"""
+
+    def __init__(self, reader, writer):
+        self.reader, self.writer = reader, writer
+        self.read = reader.read
+        for n in ("write", "drain", "write_eof", "close", "is_closing", "wait_closed", "get_extra_info"):
+            setattr(self, n, getattr(writer, n))
+
+    @property
+    def closed(self):
+        return self.writer.closed
 
 
 # ---------------------------------------------------------------------------------------------- fake network
@@ -383,12 +413,21 @@ class Net:
 
     # -- client side
     def make_client(self, reads=(), drains=(), eof_err=False, peername=("192.0.2.10", 50123),
-                    sockname=("127.0.0.1", 8080)):
+                    sockname=("127.0.0.1", 8080), udp=False):
         r = FakeReader(self, "client")
         w = FakeWriter(self, "client", None, r, peername, sockname, drains=drains, eof_err=eof_err)
         r.run_script(reads)
         self.client_reader, self.client_writer = r, w
+        if udp:
+            w.extra["transport_protocol"] = "udp"
+            d = FakeDuplex(r, w)
+            return d, d
         return r, w
+
+    async def open_udp_connection(self, host=None, port=None, **kw):
+        r, w = await self.open_connection(host, port, **kw)
+        w.extra["transport_protocol"] = "udp"
+        return FakeDuplex(r, w)
 
     # -- server side
     def _socket_closed(self, w):
